@@ -1034,13 +1034,13 @@ func check(id, tier string, workers int, wallOverride float64) int {
 var wantProbes = map[string][]string{
 	"C10": {"cas_failed", "collision_retry", "alert", "sink_stall_forever", "reentrant_alert_write", "pool_reuse_other_task"},
 	"C11": {"cas_failed", "collision_retry", "alert", "sink_slow", "two_closers", "fatal_filtered", "sink_fails_from_now_on", "nil_alerter", "fatal_with_logging_error_handler", "fatal_with_failing_sibling_close", "recovered_panic_event"},
-	"C12": {"cas_failed", "cond_broadcast_no_waiter", "cond_broadcast_woke", "mutex_contended", "never_written", "sink_goexit", "nested_close", "long_burst"},
+	"C12": {"cas_failed", "cond_broadcast_no_waiter", "cond_broadcast_woke", "mutex_contended", "never_written", "sink_goexit", "nested_close", "long_burst", "write_after_long_quiet_period", "big_ring_nearly_full"},
 	"C05": {"pool_reuse_other_task", "pool_miss", "open_events_overlap", "pool_non_lifo", "late_update_context", "stateful_sampler", "context_value_used_twice", "output_nil", "logger_variable_reused", "sample_nil", "stack_before_marshaler_installed", "go_context_detached"},
-	"C13": {"linearizable_histories", "clock_backwards", "clock_jump_forward", "clock_frozen", "sampling_disabled_phase", "level_rejected_event", "huge_burst", "derived_while_sampling_disabled", "timestamp_func_replaced", "fatal_through_sampler"},
-	"C14": {"dst_error", "dst_short_write", "sync_wrapped_destination", "sync_wrapped_fanout", "fanout_plain_write", "caller_slice_reused", "panic_event", "filter_level_changed", "error_handler_nil"},
+	"C13": {"linearizable_histories", "clock_backwards", "clock_jump_forward", "clock_frozen", "sampling_disabled_phase", "level_rejected_event", "huge_burst", "derived_while_sampling_disabled", "timestamp_func_replaced", "fatal_through_sampler", "long_sampler_chain"},
+	"C14": {"dst_error", "dst_short_write", "sync_wrapped_destination", "sync_wrapped_fanout", "fanout_plain_write", "caller_slice_reused", "panic_event", "filter_level_changed", "error_handler_nil", "event_through_logger_write"},
 	"C15": {"linearizable_histories", "mutex_contended", "pool_reuse", "dst_blocks", "dst_error", "huge_line", "writer_field_reassigned"},
 	"C17": {"crash_point", "bit_flip", "header_overwrite", "huge_length", "zeroed_range", "dropped_range", "duplicated_tail", "garbage_tail", "read_error", "dst_error", "deep_nesting", "special_value", "tag_sweep", "read_error_at_cut", "nested_embedding"},
-	"C18": {"rw_first_write_fails", "handler_panics", "base_context_logger", "rw_short_write", "rw_error", "rw_partial_then_error", "pool_reuse_other_task", "request_context_cancelled", "two_access_handlers", "per_request_hook", "zero_length_write", "default_context_logger_is_parent", "event_after_request_returned", "io_write_string"},
+	"C18": {"rw_first_write_fails", "handler_panics", "base_context_logger", "rw_short_write", "rw_error", "rw_partial_then_error", "pool_reuse_other_task", "request_context_cancelled", "two_access_handlers", "per_request_hook", "zero_length_write", "default_context_logger_is_parent", "event_after_request_returned", "io_write_string", "base_context_logger_is_parent"},
 	"C06": {"discard_then_finalize", "sink_panics", "package_level_helpers", "sink_closed", "derived_in_task", "sink_short_write", "hook_discards_event", "pool_reuse_other_task", "pool_miss", "pool_drop", "sink_overlap", "two_events_open", "sink_blocks_in_write", "sink_error", "global_level_flip", "sampling_switch_flip", "logger_from_context", "console_formatter_refuses", "panic_level_event", "mutex_contended"},
 }
 
